@@ -314,8 +314,11 @@ class Context(MutableMapping[Identifier, Symbol]):
         token: ast.AST,
     ) -> None:
         self.add(
-            Name(arg, token=token)
-            for arg in CallInterface.from_arguments(arguments).all
+            (
+                Name(arg, token=token)
+                for arg in CallInterface.from_arguments(arguments).all
+            ),
+            is_argument=True,
         )
 
     # ================================================================================ #
